@@ -32,6 +32,11 @@ CONSTANTS
   IncOf(_),            \* incarnation number the host gives the key with a guid (0: none)
   StatusInc,           \* incarnation number the status document carries for the latched key (0: none); the host may state it
                        \* in the status document, in the key document, in both, or number them differently
+  HostSpellsOddly,     \* TRUE: the host writes its guids in a legal spelling other than lower case with hyphens
+  FetchCanonicalises,  \* TRUE: a design variant whose look-up of the local key rewrites the guid to the canonical
+                       \* spelling while the store keeps the host's spelling
+  PrunesOnStart,       \* TRUE: a design variant that, at start-up, removes key files beyond the MaxKept "most recent" ones
+  MaxKept,             \* (which files count as most recent is the clock's business, i.e. the environment's)
   LocalNeedsIncarnationMatch, \* TRUE: a design variant that uses a local key file only if its incarnation equals StatusInc
   KeepHigherIncarnation, \* TRUE: a design variant in which the key in memory is not replaced by one of a lower incarnation
   ReuseUnattested,     \* TRUE: a design variant that keeps an acquired, not yet attested key across polls and goes
@@ -168,7 +173,15 @@ MkKeyDir ==
 AclKeyDir ==
   /\ pc = "AclKeyDir"
   /\ fs' = [fs EXCEPT !.dir = "acled"]
-  /\ pc' = "GetStatus" /\ Did("AclKeyDir", "-", "none")
+  /\ pc' = (IF PrunesOnStart THEN "Prune" ELSE "GetStatus") /\ Did("AclKeyDir", "-", "none")
+  /\ UNCHANGED <<host, loc, mem, policy, gh>>
+
+Prune ==         \* (variant) start-up housekeeping of the key directory
+  /\ pc = "Prune"
+  /\ IF Cardinality({g \in Guids : fs.final[g] # "none"}) > MaxKept
+     THEN \E g \in Guids : fs.final[g] # "none" /\ fs' = [fs EXCEPT !.final[g] = "none"] /\ Did("Prune", "-", g)
+     ELSE UNCHANGED fs /\ Did("Prune", "-", "none")
+  /\ pc' = "GetStatus"
   /\ UNCHANGED <<host, loc, mem, policy, gh>>
 
 \* GET /secure-channel/status.  fail: no 2xx answer; invalid: 2xx with a body that is not a valid document
@@ -221,7 +234,8 @@ NeedKey ==
 
 FetchLocal ==    \* look for <named guid>.key in the key directory, read and parse it
   /\ pc = "FetchLocal"
-  /\ IF FileIn(fs, Status.named) = "key" /\ (LocalNeedsIncarnationMatch => IncOf(Status.named) = StatusInc)
+  /\ IF /\ FileIn(fs, Status.named) = "key" /\ (LocalNeedsIncarnationMatch => IncOf(Status.named) = StatusInc)
+        /\ ~(FetchCanonicalises /\ HostSpellsOddly)
      THEN loc' = [loc EXCEPT !.key = Status.named] /\ pc' = "UpdateKeyLocal" /\ Did("FetchLocal", "ok", Status.named)
      ELSE pc' = "Acquire" /\ UNCHANGED loc /\ Did("FetchLocal", "absent", Status.named)
   /\ UNCHANGED <<host, fs, mem, policy, gh>>
@@ -345,7 +359,7 @@ Sleep(notified) ==
   /\ UNCHANGED <<host, fs, loc, policy>>
 
 AgentInternal ==
-  \/ MkKeyDir \/ AclKeyDir \/ DumpRules \/ NeedKey \/ FetchLocal \/ UpdateKeyLocal
+  \/ MkKeyDir \/ AclKeyDir \/ Prune \/ DumpRules \/ NeedKey \/ FetchLocal \/ UpdateKeyLocal
   \/ ReusePending \/ UpdateKeyMem \/ UpdChannelState \/ ClearKey
   \/ \E ep \in Eps : UpdRuleId(ep) \/ SetRules(ep) \/ UpdPolicy(ep)
 
@@ -429,7 +443,7 @@ FairSpec == Spec /\ WF_vars(AgentOk) /\ WF_vars(Restart)
 
 \* ---- properties --------------------------------------------------------------------------------------
 FileSt == {"none", "partial", "key", "corrupt"}
-Pcs == {"Dead", "MkKeyDir", "AclKeyDir", "GetStatus", "RuleId_ws", "RuleId_imds", "RuleId_ga", "SetRules_ws",
+Pcs == {"Dead", "MkKeyDir", "AclKeyDir", "Prune", "GetStatus", "RuleId_ws", "RuleId_imds", "RuleId_ga", "SetRules_ws",
         "SetRules_imds", "SetRules_ga", "DumpRules", "NeedKey", "FetchLocal", "UpdateKeyLocal", "Acquire",
         "StoreCreateTmp", "StoreWriteTmp", "StoreRename", "ReadBack", "Attest", "UpdateKeyMem", "UpdChannelState",
         "Policy_ws", "Policy_imds", "Policy_ga", "ClearKey", "Sleep"}
